@@ -725,7 +725,7 @@ func (e *specEnv) evalCall(s *SpecExpr) (Term, types.Type) {
 				return tFalse, boolT
 			}
 			return sel(set, v), boolT
-		case "argfor":
+		case "argfor", "argforelem":
 			// argfor(v, f, k): the interface value v is an admissible k-th argument of the function value f:
 			// of exactly the parameter's type, or, for an interface-typed parameter, nil or an implementation
 			v, _ := e.eval(args[0])
@@ -737,6 +737,13 @@ func (e *specEnv) evalCall(s *SpecExpr) (Term, types.Type) {
 			var k int
 			fmt.Sscanf(args[2].Val, "%d", &k)
 			pt := x.substDeep(sig.Params().At(k).Type())
+			if fn.Name == "argforelem" {
+				sl, ok := pt.Underlying().(*types.Slice)
+				if !ok {
+					e.fail("argforelem: parameter %d is not variadic", k)
+				}
+				pt = x.substDeep(sl.Elem())
+			}
 			if isInterface(pt) {
 				if it, _ := pt.Underlying().(*types.Interface); it != nil && it.Empty() {
 					return tTrue, boolT
